@@ -1,10 +1,11 @@
 #!/usr/bin/env python3
-# usage: fill_meta.py <name> <change> <needs> <result-text>
+# usage: fill_meta.py <name> <change> <needs> <result-text> [check that detects it, default: the property's own]
 import json,sys
 n,change,needs,result=sys.argv[1:5]
 p=f'/verif/seeded/{n}/meta.json'
 m=json.load(open(p))
 prop=m['breaks_property']
+if len(sys.argv)>5: prop=sys.argv[5]
 m['change']=change
 m['needs_in_order_to_manifest']=needs
 m['detection']={"check":prop,"tier":"quick","result":result,
